@@ -636,6 +636,22 @@ class SQLGenerator:
 
         return models
 
+    def _join_conjuncts(self, conditions: list[str]) -> str:
+        """Join SQL conditions with AND.
+
+        A condition whose top-level operator is OR is parenthesised first, so that
+        ``a OR b`` combined with ``c`` means ``(a OR b) AND c`` rather than ``a OR (b AND c)``.
+        """
+        parts = []
+        for condition in conditions:
+            try:
+                if isinstance(sqlglot.parse_one(condition, dialect=self.dialect), exp.Or):
+                    condition = f"({condition})"
+            except Exception:
+                pass
+            parts.append(condition)
+        return " AND ".join(parts)
+
     def _classify_filters_for_pushdown(
         self, filters: list[str], all_models: set[str]
     ) -> tuple[dict[str, list[str]], list[str]]:
@@ -1183,7 +1199,7 @@ class SQLGenerator:
                         filter_conditions.append(filter_sql)
 
                     if filter_conditions:
-                        filter_sql = " AND ".join(filter_conditions)
+                        filter_sql = self._join_conjuncts(filter_conditions)
                         # For count measures, return 1 if condition met, else NULL
                         # COUNT counts non-NULL values, so we need NULL to exclude non-matching rows
                         # base_sql is "1" for COUNT(*), and the counted expression for COUNT(expr), so that
@@ -1222,7 +1238,7 @@ class SQLGenerator:
                     # If parsing fails, use original filter
                     processed_filters.append(f)
 
-            where_clause = f"\n  WHERE {' AND '.join(processed_filters)}"
+            where_clause = f"\n  WHERE {self._join_conjuncts(processed_filters)}"
 
         # Build CTE
         select_str = ",\n    ".join(select_cols)
@@ -1531,7 +1547,7 @@ class SQLGenerator:
                     # that don't exist on the outer query, but that will surface
                     # as a clear SQL error rather than silently dropping the filter.
                     rewritten.append(f)
-            final_query += f"\nWHERE {' AND '.join(rewritten)}"
+            final_query += f"\nWHERE {self._join_conjuncts(rewritten)}"
 
         # Add ORDER BY
         if order_by:
@@ -3295,7 +3311,7 @@ LEFT JOIN conversions ON {join_condition}{group_by}{order_clause}{limit_clause}
 
                 rewritten_filters.append(rewritten_f)
 
-            where_clause = f"\nWHERE {' AND '.join(rewritten_filters)}"
+            where_clause = f"\nWHERE {self._join_conjuncts(rewritten_filters)}"
 
         # Build GROUP BY clause
         group_by_exprs = []
